@@ -175,6 +175,7 @@ PLANS = {
             S("c12_noise", 600, 18000),     # retransmission while many other time-outs expire in the same instants
             S("c12_mixed", 600, 18000),    # contexts with different resend times on one socket (scenarios/c12b_mixed.cc)
             S("c12_slowrep", 600, 18000),  # two repliers, connections stay up: a slow one answers after the timed retransmission went to the other (scenarios/c12e_slowrep.cc)
+            S("c12_optchange", 600, 18000),  # RESENDTICK set while a request is outstanding and the retry timer armed, RESENDTIME changed between requests; first copies ignored (scenarios/c12f_optchange.cc)
         ],
         "assumptions": [
             "liveness is checked as a bound after the last fault: reconnect back-off + connect completion + transfer "
